@@ -36,6 +36,32 @@ ENV_MATRIX = [('NO_COLOR', dict(NO_COLOR='1'), None), ('TERM=dumb', dict(TERM='d
               ('verbose debug variables', dict(DEBUG='1', VERBOSE='1', GODEBUG='gctrace=0'), None)]
 
 
+def discovered_env_vars():
+    """the environment variables the repository's own (non-test) Go sources read with os.Getenv / os.LookupEnv, found
+    by reading the sources of the CURRENT tree: a variable introduced by a change is tried at once"""
+    import glob as _glob
+    names = []
+    repo = os.environ.get('VERIF_REPO', '/repo')
+    for f in sorted(_glob.glob(repo + '/sourcecode-parser/**/*.go', recursive=True) + _glob.glob(repo + '/pathfinder-rules/gen-script/*.go')):
+        if f.endswith('_test.go') or os.path.basename(f).startswith('verif_'):
+            continue
+        try:
+            src = open(f, encoding='utf-8', errors='replace').read()
+        except OSError:
+            continue
+        for m in re.finditer(r'os\.(?:Getenv|LookupEnv)\(\s*"([^"]+)"', src):
+            if m.group(1) not in names:
+                names.append(m.group(1))
+    return names
+
+
+for _v in discovered_env_vars():
+    if _v in ('HOME', 'GITHUB_ACTIONS', 'GITHUB_WORKSPACE'):
+        continue                       # varied by the entries above
+    for _val in ('1', '1ns', '10ms', '/nonexistent'):
+        ENV_MATRIX.append(('%s=%s (a variable the sources read)' % (_v, _val), {_v: _val}, None))
+
+
 def run_env(cmd, overlay, timeout=600, cwd=None, base=None):
     """run under one entry of ENV_MATRIX -> (rc, stdout, stderr)"""
     name, env_, nofile = overlay
